@@ -25,6 +25,10 @@ def scenarios(rng, tier):
             out.append(fc.Scenario(h, tag, data, e, mode=rng.choice([0o644, 0o6755, 0o400]), mtime_ns=fc.NOW_NS - 12345, uid=1234, gid=5678, nlink=nl))
     for h, tag, data, e in other:
         out.append(fc.Scenario(h, tag, data, e, mode=0o4750, mtime_ns=fc.NOW_NS - 999, uid=1234, gid=5678, nlink=rng.choice([1, 2])))
+    # modification times at the edges: before 1970 (negative), zero, one nanosecond, beyond 2038 and 2106 (below 2^62 ns: the model driver reads OCaml ints)
+    for k, mt in enumerate((-86_399_876_543_211, -1_500_000_000, -1, 0, 1, (2 ** 31 + 5) * 10 ** 9 + 7, (2 ** 32 + 7) * 10 ** 9 + 999_999_999)):
+        h, tag, data, e = dirty[k % len(dirty)]
+        out.append(fc.Scenario(h, tag, data, e, mode=0o644, mtime_ns=mt, uid=0, gid=0, nlink=1 + k % 2))
     out.append(fc.Scenario("gzip", "dirty", dirty[0][2], 1000, mode=0o6755, stale=True))
     out.append(fc.Scenario("ar", "dirty", [c for c in dirty if c[0] == "ar"][0][2], 1000, mode=0o2711, stale=True, nlink=2))
     return out
